@@ -42,14 +42,15 @@ def fixture_classes(tier: str, seed: int):
                 for s in strategies:
                     if s.decomposition_function(c) is not None:
                         out.append((c, s))
-    for pats in (["aa", "bc"], ["abc"]):
-        for pre in ("", "a", "ab", "cb"):
-            c = W.WC(pre, pats, "abc", False, STATS["s1"])
-            if c.is_empty():
-                continue
-            for s in (W.Expand(), W.RemoveFront(), W.SplitFront(), W.Swap(), W.Cycle()):
-                if s.decomposition_function(c) is not None:
-                    out.append((c, s))
+    for pats in (["aa", "bc"], ["abc"], ["ab", "ac", "ba", "bc"]):
+        for pre in ("", "a", "ab", "cb", "c"):
+            for st in ("s1", "s2"):
+                c = W.WC(pre, pats, "abc", False, STATS[st])
+                if c.is_empty():
+                    continue
+                for s in (W.Expand(), W.ExpandTrim(), W.ExpandTrimRename(), W.RemoveFront(), W.SplitFront(), W.Swap(), W.Cycle()):
+                    if s.decomposition_function(c) is not None:
+                        out.append((c, s))
     rnd = random.Random(seed + 9)
     rnd.shuffle(out)
     if tier == "quick":
@@ -242,6 +243,7 @@ def lab_job(args):
                 fresh = dict(derived_forms(c, s))[fid]
                 events += lab_objects(fid, fresh, namer, min(max_n, 5))
                 events += lab_maps(fid, fresh, namer, min(max_n, 5))
+                events += lab_objects_after_fault(fid, dict(derived_forms(c, s))[fid], namer, min(max_n, 5))
             if "draws" in what:
                 fresh = dict(derived_forms(c, s))[fid]
                 events += lab_draws(fid, fresh, namer, min(max_n, 5))
@@ -281,6 +283,54 @@ def lab_objects(fid, rule, namer, max_n) -> List[dict]:
         except Exception:
             terms = [[[-7], 1]]
         events.append({"op": "objects", "form": fid, "c": parent, "n": n, "objs": objs_list(rule.comb_class, objects), "terms": terms, "partial": False})
+    return events
+
+
+class _InjectedFault(Exception):
+    pass
+
+
+def lab_objects_after_fault(fid, rule, namer, max_n) -> List[dict]:
+    """A generation request that is aborted by a one-off fault inside a backward map (as a KeyboardInterrupt or a
+    RecursionError would), followed by the same requests again: the objects must still be exactly right."""
+    events = []
+    rule.subobjects = tuple((lambda ch: (lambda m: ch.get_objects(m)))(ch) for ch in rule.children)
+    rule.subterms = tuple((lambda ch: (lambda m: ch.get_terms(m)))(ch) for ch in rule.children)
+    parent = namer(rule.comb_class)
+    orig = rule.backward_map
+    state = {"calls": 0, "armed": True}
+
+    def faulty(objs):
+        state["calls"] += 1
+        if state["armed"] and state["calls"] == 3:
+            state["armed"] = False
+            raise _InjectedFault()
+        return orig(objs)
+
+    rule.backward_map = faulty
+    try:
+        try:
+            rule.get_objects(max_n)
+        except _InjectedFault:
+            pass
+        except NotImplementedError:
+            return events
+        except Exception:
+            pass
+    finally:
+        del rule.backward_map
+    if state["armed"]:
+        return events  # fewer than three objects were built: nothing was interrupted
+    for n in range(max_n + 1):
+        try:
+            objects = rule.get_objects(n)
+            terms = terms_list(rule.get_terms(n))
+        except NotImplementedError:
+            return events
+        except Exception as e:
+            events.append({"op": "objects", "form": fid + "+fault", "c": parent, "n": n, "objs": [[[-7], [[1]]]], "terms": [], "partial": False, "error": type(e).__name__})
+            continue
+        events.append({"op": "objects", "form": fid + "+fault", "c": parent, "n": n, "objs": objs_list(rule.comb_class, objects), "terms": terms, "partial": False})
     return events
 
 
